@@ -181,8 +181,8 @@ theorem out_of_range_refused (p : Profile) (n : Nat) (e : Endianness) (s : Sign)
 example : InRangeOf (BitVec.ofInt 64 (-8)) 7#64 (BitVec.ofInt 64 (-3)) ∧
     ¬ InRangeOf (BitVec.ofInt 64 (-8)) 7#64 8#64 := by decide
 
-/-- the unsigned field of a word is `Spec.fieldU`: `apply_mask` is the specification's
-bit-field extraction `(word / 2^l) mod 2^w` -/
+/-- bit-level form: bit `i` of the unsigned field is bit `l+i` of the word for `i < w`, else 0
+(the arithmetic form against `Spec.Codec.fieldU/fieldS` is `value_is_spec_field`) -/
 theorem value_is_field (p : Profile) (n : Nat) (e : Endianness) (bm : BitMask) (wf : WF n e bm)
     (w : I64) :
     ∃ x, bm.applyMask p w (lenUsize n) e .unsigned = .ok x ∧
@@ -531,7 +531,7 @@ theorem write_isolated_kernel_only (p : Profile) (n : Nat) (e : Endianness) (s :
   have hfalse : (fieldMask (fLo n e bm) (fHi n e bm)).getLsbD i = false := by
     rw [hbit]; exact decide_eq_false hout
   have := congrArg (fun w => BitVec.getLsbD w i) hiso
-  simp only [BitVec.getLsbD_and, BitVec.getLsbD_not, hfalse, hi64, decide_true, Bool.true_and,
+  simp only [BitVec.getLsbD_and, BitVec.getLsbD_not, hfalse, hi64, decide_true,
     Bool.not_false, Bool.and_true] at this
   exact this
 
@@ -774,5 +774,89 @@ example : WF 2 .le (.range 0 3) ∧ WF 2 .le (.range 4 11) ∧ WF 2 .le (.single
     (toField 2 .le ⟨.range 0 3, .unsigned⟩).Disjoint (toField 2 .le ⟨.range 4 11, .signed⟩) ∧
     (toField 2 .le ⟨.range 4 11, .signed⟩).Disjoint (toField 2 .le ⟨.singleBit 15, .unsigned⟩) := by
   decide
+
+/-! ## The same statements in the vocabulary of the independent codec (`Spec.Codec`) -/
+
+/-- the unsigned word the device holds in the register (`Spec.readU`, declared byte order) -/
+abbrev regNat (e : Endianness) (address : Int) (n : Nat) (d : Dev) : Nat :=
+  readU e (d.mem.readRange address n)
+
+private theorem regWord_toNat (e : Endianness) (address : Int) (n : Nat) (hn : IntLen n) (d : Dev) :
+    (regWord e address n d).toNat = regNat e address n d := by
+  have hlt := Proofs.C01.readUnsigned_lt e (d.mem.readRange address n)
+  rw [Proofs.C01.readRange_length, show (256 : Nat) = 2 ^ 8 from rfl, ← Nat.pow_mul,
+    ← Proofs.C01.readU_eq] at hlt
+  have h64 : 2 ^ (8 * n) ≤ 2 ^ 64 :=
+    Nat.pow_le_pow_right (by omega) (by rcases hn with rfl | rfl | rfl | rfl <;> omega)
+  simp only [regWord, regNat, BitVec.toNat_ofNat]
+  exact Nat.mod_eq_of_lt (Nat.lt_of_lt_of_le hlt h64)
+
+/-- **`apply_mask` is the independent codec's bit-field reading**: for every word,
+`apply_mask` returns the value whose `i64` reading is `Spec.Codec.fieldReading` — the
+unsigned field `(word / 2^l) mod 2^w` (`fieldU`), read as two's complement (`fieldS`) when
+the field is signed.  (Kernel-only link between the proofs-local `specExtract` and the
+independent specification.) -/
+theorem value_is_spec_field (p : Profile) (n : Nat) (e : Endianness) (s : Sign) (bm : BitMask)
+    (wf : WF n e bm) (w : I64) :
+    ∃ x, bm.applyMask p w (lenUsize n) e s = .ok x ∧
+      x.toInt = fieldReading s (fLo n e bm).toNat (fHi n e bm).toNat w.toNat := by
+  refine ⟨_, applyMask_eq p n e bm wf s w, ?_⟩
+  have hle := wf_le n e bm wf
+  have hlt := wf_lt n e bm wf
+  rw [BitVec.le_def] at hle; rw [BitVec.lt_def] at hlt
+  exact Proofs.C02K.specExtract_toInt s _ _ w hle hlt
+
+example : fieldReading .signed 4 7 0xf0 = -1 ∧ fieldReading .unsigned 4 7 0xf0 = 15 ∧
+    fieldReading .unsigned 60 63 0xf000000000000000 = 15 ∧ fieldReading .signed 0 0 1 = -1 := by
+  decide
+
+/-- **`value()` on the device, against the independent codec**: plain port, answering
+device, `WF`: `value()` performs one read and returns the integer
+`fieldReading sign l m U`, where `U` is the unsigned reading (`Spec.readU`) of the register
+bytes held by the device. -/
+theorem value_on_device_spec (p : Profile) (port : Port) (hp : port.hasChunkId = false)
+    (n : Nat) (e : Endianness) (s : Sign) (bm : BitMask) (wf : WF n e bm) (address : Int)
+    (d : Dev) (hd : d.Reliable) :
+    ∃ x, MaskedIntReg.value p port bm e s address n d = (.ok x, afterRead d address n) ∧
+      x.toInt = fieldReading s (fLo n e bm).toNat (fHi n e bm).toNat (regNat e address n d) := by
+  refine ⟨_, value_on_device p port hp n e s bm wf address d hd, ?_⟩
+  have hle := wf_le n e bm wf
+  have hlt := wf_lt n e bm wf
+  rw [BitVec.le_def] at hle; rw [BitVec.lt_def] at hlt
+  rw [Proofs.C02K.specExtract_toInt s _ _ _ hle hlt, regWord_toNat e address n wf.1 d]
+
+/-- the integer a field must report after a history: its last accepted written value, else
+the independent codec's reading of the register's INITIAL content -/
+def expectedInt (n : Nat) (e : Endianness) (fd : FieldDesc) (u0 : Nat) : Option I64 → Int
+  | some v => v.toInt
+  | none => fieldReading fd.s (fLo n e fd.bm).toNat (fHi n e fd.bm).toNat u0
+
+/-- **siblings on the device, against the independent codec**: as `siblings_on_device`, with
+the result stated as an integer: after any interleaved history every field's `value()`
+is its last accepted written value, or — if never written — `Spec.Codec.fieldReading` of
+the register word the device held initially. -/
+theorem siblings_on_device_spec (p : Profile) (port : Port) (hp : port.hasChunkId = false)
+    (n : Nat) (e : Endianness) (address : Int) (descs : List FieldDesc)
+    (hwf : ∀ fd ∈ descs, WF n e fd.bm)
+    (hdis : ∀ i j (hi : i < descs.length) (hj : j < descs.length), i ≠ j →
+      (toField n e descs[i]).Disjoint (toField n e descs[j]))
+    (d : Dev) (hd : d.Reliable) (ops : List (Nat × I64)) (j : Nat) (hj : j < descs.length) :
+    ∃ x, (MaskedIntReg.value p port descs[j].bm e descs[j].s address n
+        (runDev p port n e address descs d ops)).1 = .ok x ∧
+      x.toInt = expectedInt n e descs[j] (regNat e address n d)
+        (lastWritten (descs.map (toField n e)) j none ops) ∧
+      (∀ y, y < address ∨ address + (n : Int) ≤ y →
+        (runDev p port n e address descs d ops).mem y = d.mem y) := by
+  obtain ⟨h1, h2⟩ := siblings_on_device p port hp n e address descs hwf hdis d hd ops j hj
+  refine ⟨_, h1, ?_, h2⟩
+  have wf := hwf _ (List.getElem_mem hj)
+  have hle := wf_le n e descs[j].bm wf
+  have hlt := wf_lt n e descs[j].bm wf
+  rw [BitVec.le_def] at hle; rw [BitVec.lt_def] at hlt
+  cases hl : lastWritten (descs.map (toField n e)) j none ops with
+  | some v => rfl
+  | none =>
+    simp only [expected, expectedInt, toField]
+    rw [Proofs.C02K.specExtract_toInt _ _ _ _ hle hlt, regWord_toNat e address n wf.1 d]
 
 end CamVerif.C02
